@@ -547,3 +547,85 @@ func VerifQueueMisuse() {
 	// nothing changed: a fresh queue over the same file still has both events (unless drained above)
 	verifReach("end")
 }
+
+// VerifQueueConcurrent (C13): a producer goroutine (Write/Next/Flush) and a
+// consumer goroutine (Begin/Next/Read/Done/ACK) on one queue under a symbolic
+// scheduler.  The consumer receives exactly the produced sequence in order,
+// ACKs never fail or remove unread events, nothing deadlocks.
+func VerifQueueConcurrent() {
+	s := newQ(64, 0)
+	nEv := verifParam("events", 2)
+	sizes := make([]int, nEv)
+	for e := range sizes {
+		sizes[e] = pickSize()
+	}
+	flushEach := verifBool("flusheach")
+	verifSched(verifParam("preempt", 1))
+	done := make([]bool, 2)
+	received := 0
+	wg := newWaiter(2)
+
+	go func() { // producer
+		for e := 0; e < nEv; e++ {
+			data := eventData(e, sizes[e])
+			_, err := s.w.Write(data)
+			verifAssert(err == nil, "producer: Write succeeds")
+			verifAssert(s.w.Next() == nil, "producer: Next succeeds")
+			if flushEach {
+				verifAssert(s.w.Flush() == nil, "producer: Flush succeeds")
+			}
+		}
+		verifAssert(s.w.Flush() == nil, "producer: final Flush succeeds")
+		done[0] = true
+		wg.done()
+	}()
+
+	go func() { // consumer
+		spins := 0
+		for received < nEv {
+			verifAssert(s.r.Begin() == nil, "consumer: Begin succeeds")
+			n, err := s.r.Next()
+			verifAssert(err == nil, "consumer: Next succeeds")
+			if n == 0 {
+				s.r.Done()
+				spins++
+				if spins > verifParam("spins", 3) && !done[0] {
+					// give up polling until the producer has finished (bounds the schedule space)
+					for !done[0] {
+						verifYield()
+					}
+				}
+				verifYield()
+				continue
+			}
+			want := eventData(received, sizes[received])
+			verifAssert(n == len(want), "consumer: events arrive in production order with their size")
+			got := make([]byte, n)
+			m, rerr := s.r.Read(got)
+			verifAssert(rerr == nil && m == n, "consumer: Read returns the whole event")
+			verifAssert(verifBytesEqual(got, want), "consumer: event bytes are exactly the produced bytes")
+			s.r.Done()
+			received++
+			aerr := s.q.ACK(1)
+			verifAssert(aerr == nil, "consumer: ACK of a delivered event succeeds")
+		}
+		done[1] = true
+		wg.done()
+	}()
+
+	wg.wait()
+	verifAssert(received == nEv, "the consumer received every produced event")
+	p, perr := s.q.Pending()
+	verifAssert(perr == nil && p == 0, "nothing pending at the end")
+	// the queue is still consistent: one more event goes through
+	s.events, s.flushed, s.acked, s.read, s.readMark = nil, 0, 0, 0, 0
+	s.cbSeen = s.cbFlushed
+	data := eventData(0, 100)
+	_, werr := s.w.Write(data)
+	verifAssert(werr == nil && s.w.Next() == nil && s.w.Flush() == nil, "the queue accepts more events")
+	verifAssert(s.r.Begin() == nil, "Begin")
+	n, _ := s.r.Next()
+	verifAssert(n == 100, "and delivers them")
+	s.r.Done()
+	verifReach("end")
+}
